@@ -145,6 +145,8 @@ def flatten_items(pg):
             items.append("PGroup true [POther]")
         elif kd == "distinct":
             items.append("PGroup true [PTake]")
+        elif kd == "join" and st.info.get("rsub"):
+            items.append("PSub [PSort %s]" % k(st.info["rsub"]))
         elif kd in ("join", "append", "knownjoin"):
             items.append("PSub []")
         elif kd in ("derive", "filter", "select", "aggregate", "exclude"):
@@ -277,6 +279,40 @@ def judge_order(rec):
     return None
 
 
+def selfjoin_program(rng):
+    """a sorted let-bound relation whose sort columns are dropped by its select, referenced twice (self-join): the
+    order must be that of the LEFT reference, whatever the compiler does to carry the sort column out of the CTE"""
+    n = P.nid
+    cols = ["a", "c", "g"]
+    # `a` is made unique in the instances of this family, so {±a, ..} is a total order although `id` is not a key
+    ks = [(rng.random() < 0.5, "a")] + [(rng.random() < 0.5, c) for c in rng.sample(["c", "g"], rng.choice([0, 1]))]
+    if rng.random() < 0.3:
+        ks = ks + [(rng.random() < 0.4, rng.choice(["id", "b"]))]     # a sort column that is kept (known finding C07-N1)
+    side = rng.choice(["LeftJ", "LeftJ", "Inner"])
+    tk = rng.choice([None, None, (None, 3), (2, 4)])
+    ktxt = ", ".join(("-" if d else "") + c for d, c in ks)
+    lines = ["let s = (", "from t", "sort {%s}" % ktxt, "select {id, b}", ")", "from s",
+             "join %ss2=s (s.b == s2.id)" % ("side:left " if side == "LeftJ" else ""), "select {s.id, s.b, k = s2.b}"]
+    tail = []
+    if tk:
+        lines.append("take %s" % (str(tk[1]) if tk[0] is None else "%d..%d" % tk))
+        tail.append("TTake %s (Some (%d))" % ("None" if tk[0] is None else "(Some (%d))" % tk[0], tk[1]))
+        if rng.random() < 0.6:
+            lines.append("filter id != 99")
+            tail.append("TFilter (EBin Ne (ECol None %d%%N) (ELit (VInt 99)))" % n("id"))
+    S, S2 = n("t"), n("u")     # qualifier tokens of the two references
+    ckeys = "[" + "; ".join("(%s, ECol None %d%%N)" % ("true" if d else "false", n(c)) for d, c in ks) + "]"
+
+    def model(inst):
+        base = P.coq_rel("t", inst["t"], "(Some %d%%N)" % n("t"), P.inst_cols(inst, "t"))
+        steps = ["TJoin %s %d%%N [%d%%N; %d%%N] p (EBin Eq (ECol (Some %d%%N) %d%%N) (ECol (Some %d%%N) %d%%N))" % (side, S2, n("id"), n("b"), S, n("b"), S2, n("id")),
+                 "TSelect [(None, ECol (Some %d%%N) %d%%N); (None, ECol (Some %d%%N) %d%%N); (Some %d%%N, ECol (Some %d%%N) %d%%N)]" % (S, n("id"), S, n("b"), n("k"), S2, n("b"))] + tail
+        return ("(let p := run %s [TSort %s; TSelect [(None, ECol None %d%%N); (None, ECol None %d%%N)]] in "
+                "let r := run (map (requalify %d%%N) p) [%s] in (show r, names r))" % (base, ckeys, n("id"), n("b"), S, "; ".join(steps)))
+    kinds = ["sort", "select", "join", "select"] + (["take"] if tk else []) + (["filter"] if len(tail) == 2 else [])
+    return P.RawProgram(kinds, "\n".join(lines), model, True, ["id", "b", "k"], {"let_at": 2, "selfjoin": True})
+
+
 def permuted(rng, inst):
     out = {}
     for t, rows in inst.items():
@@ -294,7 +330,7 @@ def run():
     targets = ("sql.sqlite", "sql.generic")
     weights = {"sort": 4.0, "take": 3.5, "select": 2.2, "derive": 1.6, "filter": 2.0, "join": 2.0, "aggregate": 0.4, "group_agg": 0.6,
                "group_take": 0.9, "group_win": 0.6, "win": 0.8, "distinct": 0.4, "append": 0.1}
-    g = P.Gen(rng, weights=weights, max_steps=8, lets=0.3)
+    g = P.Gen(rng, weights=weights, max_steps=8, lets=0.3, rsub=0.4)
     cases = []
     # directed: sort followed by every kind, then a take; sort on a computed / later-dropped column
     for k in E.KINDS:
@@ -313,6 +349,14 @@ def run():
         pg = g.program(n_steps=4 + rng.randint(0, 2), force=["sort", "join", "take", rng.choice(["group_agg", "filter", "derive", "select", "aggregate"])])
         inst = P.gen_instance(rng, max_rows=7, min_rows=5)
         cases.append((pg, [inst, permuted(rng, inst)]))
+    # the join's relational argument is a sorted pipeline of its own: its sort must not reach the outer take
+    # (which lands in a CTE because of what follows it)
+    for _ in range(ck.n(24, 120) * (3 if broken else 1)):
+        g.rsub = 1.0
+        pg = g.program(n_steps=4 + rng.randint(0, 1), force=["sort", "join", "take", rng.choice(["filter", "derive", "group_agg", "select"])])
+        g.rsub = 0.4
+        inst = P.gen_instance(rng, max_rows=7, min_rows=5)
+        cases.append((pg, [inst, permuted(rng, inst)]))
     # sort | join | take | select (unique names) | group: the take's own sort is the only carrier of the order
     for _ in range(ck.n(30, 150) * (3 if broken else 1)):
         pg = g.program(n_steps=5 + rng.randint(0, 1), force=["sort", "join", "take", "select", rng.choice(["group_agg", "aggregate", "distinct"])])
@@ -325,6 +369,13 @@ def run():
             pg.meta["let_at"] = 1
         inst = P.gen_instance(rng, max_rows=7, min_rows=5)
         cases.append((pg, [inst, permuted(rng, inst)]))
+    # a sorted let-bound relation referenced twice
+    for _ in range(ck.n(24, 160) * (3 if broken else 1)):
+        inst = P.gen_instance(rng, max_rows=7, min_rows=5)
+        ai = P.TABLES["t"].index("a")
+        vals = rng.sample(range(-3, 12), len(inst["t"]))
+        inst["t"] = [r[:ai] + [v] + r[ai + 1:] for r, v in zip((list(x) for x in inst["t"]), vals)]
+        cases.append((selfjoin_program(rng), [inst, permuted(rng, inst)]))
     for _ in range(ck.n(260, 4000) * (3 if broken else 1)):
         pg = g.program()
         inst = P.gen_instance(rng, max_rows=7, min_rows=3)
